@@ -30,7 +30,9 @@ MAX_, MIN_ = ("builtin", "max"), ("builtin", "min")
 
 
 class C11:
-    def __init__(self, ctx: Ctx):
+    def __init__(self, ctx: Ctx, affinity_subset: bool = False):
+        # affinity_subset: only the parts compute_affinity relies on (TimeStamp closed form, shapely path)
+        self.subset = affinity_subset
         self.ctx = ctx
         self.file = ctx.index.module(OPS).relpath
 
@@ -50,9 +52,13 @@ class C11:
                 rej = rej or bool(lv[1])
             if rej != (tv < 0 or fv < 0):
                 bad = (tv, fv, rej)
+        if self.subset:
+            bad, guard_first = "skip", True
         first_other = min([e.idx for e in s.calls if not (e.term[1][0] == "builtin" and e.term[1][1].endswith("Error"))] or [10 ** 9])
-        guard_first = bool(s.raises) and s.raises[0].idx < first_other
-        if bad is None and guard_first:
+        guard_first = (bool(s.raises) and s.raises[0].idx < first_other) if not self.subset else True
+        if bad == "skip":
+            pass
+        elif bad is None and guard_first:
             ctx.ok("R11.1", site, "raise iff time_buffer < 0 or freq_buffer < 0, before any other work")
         elif bad is not None:
             ctx.bad("R11.1", self.file, "buffer_geometry", "negative-buffer guard",
@@ -65,6 +71,8 @@ class C11:
         # R11.3 / R11.4 dispatch
         want = {"TimeStamp": ("buffer_timestamp", ("time_buffer",)), "TimeInterval": ("buffer_interval", ("time_buffer",)),
                 "BoundingBox": ("buffer_bounding_box_geometry", ("time_buffer", "freq_buffer"))}
+        if self.subset:
+            want = {"TimeStamp": want["TimeStamp"]}
         rows = {}
         fallthrough = []
         for r in s.returns:
@@ -91,7 +99,7 @@ class C11:
                         f"{fn} does not receive the caller's buffers under their own names: "
                         f"{ {k: show(b.get(k, NONE)) for k in bufs} }", r.lineno)
         for tag in rows:
-            if tag not in want:
+            if tag not in want and not self.subset:
                 ctx.bad("R11.3", self.file, "buffer_geometry", f'"{tag}" closed form', f"{tag} is routed to a closed form; only TimeStamp, TimeInterval and BoundingBox have one", rows[tag].lineno)
         bs = ctx.summ.of_func(OPS, "buffer_shapely_geometry")
         if len(fallthrough) == 1 and fallthrough[0].term[0] == "call" and fallthrough[0].term[1] == ("global", f"{OPS}:buffer_shapely_geometry", "func"):
@@ -121,6 +129,8 @@ class C11:
                 ("call", MIN_, (("bin", "+", ("sub", c, ("const", 3)), fb), MAXT), ())], False),
         }
         names = ["start", "low", "end", "high"]
+        if self.subset:
+            specs = {"buffer_timestamp": specs["buffer_timestamp"]}
         for fn, (cls, build, scalar) in specs.items():
             s = ctx.summ.of_func(OPS, fn)
             site = f"{self.file}:{s.node.lineno} {fn}"
@@ -225,6 +235,38 @@ class C11:
                         cl[0].lineno)
         else:
             ctx.undec("R11.5", site, "clip_by_rect not called with (geometry, xmin, ymin, xmax, ymax)")
+        # the clip must apply on every path: either unconditional, or guarded by a disjunction that covers all three
+        # ways of leaving the domain (time < 0, frequency < 0, frequency > MAX_FREQUENCY)
+        gj = [e for e in s.calls if e.term[1] == ("ext", "shapely.to_geojson")]
+        extra = [c for c in conjuncts(cl[0].live)]
+        if gj and gj[0].term[2][:1] == (cl[0].term,) and not extra:
+            ctx.ok("R11.5", f"{self.file}:{cl[0].lineno} buffer_shapely_geometry", "the clipped shape (clipped unconditionally) is the one converted back")
+        else:
+            src = gj[0].term[2][0] if gj and gj[0].term[2] else None
+            cond = None
+            if src is not None and src[0] == "ite" and cl[0].term in (src[2], src[3]):
+                cond = src[1] if src[2] == cl[0].term else ("not", src[1])
+            need = {"time below 0": False, "frequency below 0": False, "frequency above MAX_FREQUENCY": False}
+            if cond is not None and cond[0] == "or":
+                for c in cond[1]:
+                    if c[0] == "cmp" and c[1] in ("lt", "le"):
+                        l, r = c[2], c[3]
+                        def bidx(t):
+                            return t[2][1] if t[0] == "sub" and t[1][0] == "attr" and t[1][2] == "bounds" and t[2][0] == "const" else None
+                        if bidx(l) == 0 and r == ("const", 0):
+                            need["time below 0"] = True
+                        if bidx(l) == 1 and r == ("const", 0):
+                            need["frequency below 0"] = True
+                        if l == MAXT and bidx(r) == 3:
+                            need["frequency above MAX_FREQUENCY"] = True
+            if cond is not None and all(need.values()):
+                ctx.ok("R11.5", f"{self.file}:{cl[0].lineno} buffer_shapely_geometry", "clip guarded by a test that covers all three ways of leaving the domain")
+            else:
+                missing = [k for k, v in need.items() if not v] if cond is not None else ["(the clipped shape is not the one converted back)"]
+                ctx.bad("R11.5", self.file, "buffer_shapely_geometry", f"clip applied only if {show(cond)[:80] if cond else show(cl[0].live)[:80]}",
+                        f"the domain clip does not apply on every path: case(s) not covered: {', '.join(missing)}. A geometry buffered beyond "
+                        f"that edge is handed unclipped to the validating constructor, which rejects it (or the result leaves the valid domain)",
+                        cl[0].lineno)
         ctors = set()
         for r in s.returns:
             t = r.term
@@ -237,12 +279,26 @@ class C11:
             ctx.ok("R11.5", site, "result built by the validating constructors data.Polygon / data.MultiPolygon")
 
 
+def run_affinity_subset(ctx: Ctx):
+    """The part of C11 that compute_affinity relies on (C06 delegates to it)."""
+    ctx.rule("R11.2", "TimeStamp closed form is the widened, clamped interval", 2)
+    ctx.rule("R11.3", "TimeStamp takes its closed form; other buffered types the shapely path", 1)
+    ctx.rule("R11.4", "buffers forwarded uncrossed", 2)
+    ctx.rule("R11.5", "shapely result clipped to the domain rectangle and re-validated", 3)
+    ctx.rule("R11.6", "same factor scales and unscales around a unit buffer", 3)
+    c = C11(ctx, affinity_subset=True)
+    with ctx.delegated(""):
+        c.check_guard_and_dispatch()
+    c.check_closed_forms()
+    c.check_shapely_path()
+
+
 def run(ctx: Ctx):
     ctx.rule("R11.1", "negative buffers rejected first, and only those", 1)
     ctx.rule("R11.2", "closed forms are the widened, clamped interval / box", 8)
     ctx.rule("R11.3", "exactly TimeStamp / TimeInterval / BoundingBox take the closed form", 3)
     ctx.rule("R11.4", "buffers forwarded uncrossed at the four delegations", 4)
-    ctx.rule("R11.5", "shapely result clipped to the domain rectangle and re-validated", 2)
+    ctx.rule("R11.5", "shapely result clipped to the domain rectangle and re-validated", 3)
     ctx.rule("R11.6", "same factor scales and unscales around a unit buffer", 3)
     c = C11(ctx)
     c.check_guard_and_dispatch()
